@@ -3,6 +3,7 @@ CONSTANTS
   MaxSent = 2
   MaxWrite = 2
   Bufs = {1, 2}
+  Delays = {"neg-", "neg+", "1h"}
 INIT Init
 NEXT Next
 VIEW View
